@@ -189,17 +189,17 @@ func verifC20Validate(kind int) {
 	rt.Cover("returned")
 }
 
-func VerifC20ValidateBondedOracle() { verifC20Validate(0) }
-func VerifC20ValidateAddDelegate() { verifC20Validate(1) }
-func VerifC20ValidateEditBridger() { verifC20Validate(2) }
-func VerifC20ValidateSendToExternal() { verifC20Validate(3) }
-func VerifC20ValidateRequestBatch() { verifC20Validate(4) }
-func VerifC20ValidateConfirmBatch() { verifC20Validate(5) }
-func VerifC20ValidateIncreaseBridgeFee() { verifC20Validate(6) }
-func VerifC20ValidateCancelSendToExternal() { verifC20Validate(7) }
-func VerifC20ValidateSendToFxClaim() { verifC20Validate(8) }
-func VerifC20ValidateBridgeCallClaim() { verifC20Validate(9) }
+func VerifC20ValidateBondedOracle()          { verifC20Validate(0) }
+func VerifC20ValidateAddDelegate()           { verifC20Validate(1) }
+func VerifC20ValidateEditBridger()           { verifC20Validate(2) }
+func VerifC20ValidateSendToExternal()        { verifC20Validate(3) }
+func VerifC20ValidateRequestBatch()          { verifC20Validate(4) }
+func VerifC20ValidateConfirmBatch()          { verifC20Validate(5) }
+func VerifC20ValidateIncreaseBridgeFee()     { verifC20Validate(6) }
+func VerifC20ValidateCancelSendToExternal()  { verifC20Validate(7) }
+func VerifC20ValidateSendToFxClaim()         { verifC20Validate(8) }
+func VerifC20ValidateBridgeCallClaim()       { verifC20Validate(9) }
 func VerifC20ValidateBridgeCallResultClaim() { verifC20Validate(10) }
-func VerifC20ValidateBridgeTokenClaim() { verifC20Validate(11) }
+func VerifC20ValidateBridgeTokenClaim()      { verifC20Validate(11) }
 func VerifC20ValidateOracleSetUpdatedClaim() { verifC20Validate(12) }
-func VerifC20ValidateBridgeCall() { verifC20Validate(13) }
+func VerifC20ValidateBridgeCall()            { verifC20Validate(13) }
